@@ -29,6 +29,9 @@ def transform(req: bytes) -> bytes | None:
     return bytes([req[0] ^ 0xFF]) + req[::-1]
 
 
+MARK = bytes.fromhex("eeeeeeee")
+
+
 def make_server_class(base: type) -> type:
     class EchoTransport(base):  # type: ignore[misc, valid-type]
         """gallia's real connection loop; only the UDS layer behind it is replaced."""
@@ -73,7 +76,7 @@ class C19(Check):
         "message sequences (lengths {1,2,3,4,7,16,64,1000,4095}, all byte values incl. runs of 0x0a/0x0d/0x20/0x00, bursts of 1-200) x an explicit "
         "segment list over the whole byte stream (every single split offset stratified for the low indices, byte-by-byte, random multi-split, "
         "2-50 messages coalesced per segment) x inter-segment gaps {0, 1 ms, 0.3 s} x read timeouts {0.2 s, 1 s} so that timeouts fall between two "
-        "segments of one line x mode {client half tcp/unix, server loop tcp/unix, both halves} x EOF at a line boundary. non-trivial = a split inside "
+        "segments of one line x mode {client half tcp/unix, server loop tcp/unix, both halves} x EOF at a line boundary x slow node (loop iterations that cost 0.5-350 ms of virtual time, so deadlines are noticed late) x a second tester connected to the same server loop at the same time. non-trivial = a split inside "
         "a line, a coalesced segment or a read timeout in mid-line; distinct = (mode, segment pattern class per message, timeout positions)."
     )
     assumptions = [
@@ -130,6 +133,10 @@ class C19(Check):
         plan["half_close"] = rng.random() < 0.5
         plan["lat"] = rng.choice([[0.0001, 0.0004], [0.0005, 0.002]])
         plan["net_seed"] = rng.getrandbits(30)
+        # slow node: some loop iterations cost virtual time (another callback kept the CPU), so deadlines are noticed late
+        plan["stall"] = rng.choice([0.0, 0.0, 0.0, 0.05, 0.25])
+        # a second tester connected to the same server loop at the same time (its messages carry a marker)
+        plan["bystander"] = {"at": rng.choice([0.0, 0.0004, 0.3]), "n": rng.choice([1, 3, 8]), "gap": rng.choice([0.0, 0.0007, 0.1])} if rng.random() < 0.3 else None
         # the opposite direction (produced by the code under test) gets a random network segmentation
         plan["back_segment"] = rng.choice(["whole", "random", "bytes"]) if total < 2000 else rng.choice(["whole", "random"])
         return plan
@@ -185,6 +192,14 @@ class C19(Check):
 
         async def main(loop: Any) -> Any:
             rec = Recorder(loop)
+            if plan.get("stall"):
+                import random as _random
+
+                srng = _random.Random(plan["net_seed"] ^ 0x5A11)
+                loop.stall_rng = srng
+                loop.stall_dt = lambda: srng.choice([0.0005, 0.02, 0.12, 0.35])
+                loop.stall_p = plan["stall"]
+                holder["loop"] = loop
             net = SimNet(loop, seed=plan["net_seed"])
             net.policy_factory = policy
             net.install()
@@ -260,16 +275,64 @@ class C19(Check):
 
                 t = loop.create_task(rxloop())
                 loop.keep.append(t)
+                by = plan.get("bystander")
+                by_rx = bytearray()
+                holder["by_rx"] = by_rx
+                by_state: dict[str, Any] = {"done": by is None}
+
+                async def bystander() -> None:
+                    await asyncio.sleep(by["at"])
+                    if plan["scheme"] == "tcp":
+                        r2, w2 = await asyncio.open_connection("h", 1)
+                    else:
+                        r2, w2 = await asyncio.open_unix_connection("/sim/vecu.sock")
+
+                    async def rx2() -> None:
+                        while True:
+                            c = await r2.read(65536)
+                            if not c:
+                                break
+                            by_rx.extend(c)
+
+                    t2 = loop.create_task(rx2())
+                    loop.keep.append(t2)
+                    for i in range(by["n"]):
+                        w2.write((MARK + bytes([i + 1])).hex().encode() + b"\n")
+                        await w2.drain()
+                        if by["gap"]:
+                            await asyncio.sleep(by["gap"])
+                    by_state["w"] = w2
+                    by_state["done"] = True
+
+                if by is not None:
+                    bt = loop.create_task(bystander())
+                    loop.keep.append(bt)
+                n_replies = sum(1 for m_ in msgs if transform(m_) is not None)
+
+                async def settle() -> None:
+                    # give the server the time it needs; on a slow node (stalls) that is longer: wait for the work to be
+                    # done, up to a cap that only a lost message can reach
+                    await asyncio.sleep(1.0 + len(msgs) * plan.get("srv_think", 0.0))
+                    waited = 0.0
+                    n_by = by["n"] if by is not None else 0
+                    while (plan.get("stall") or by is not None) and waited < 120.0 and (
+                        not by_state["done"] or len(seen) < len(msgs) + n_by or rx.count(b"\n") < n_replies or by_rx.count(b"\n") < n_by
+                    ):
+                        await asyncio.sleep(0.25)
+                        waited += 0.25
+
                 await send_segmented(writer, stream_of(plan["msgs"]))
                 if plan.get("half_close"):
                     # pipelined requests followed by a half-close: the end of stream may already be buffered
                     # when the server loop reads the last line
                     writer.write_eof()
-                    await asyncio.sleep(1.0 + len(msgs) * plan.get("srv_think", 0.0))
+                    await settle()
                 else:
-                    await asyncio.sleep(1.0 + len(msgs) * plan.get("srv_think", 0.0))
+                    await settle()
                     holder["handler_done_before_close"] = [h.done() for h in net.handler_tasks]
                 writer.close()
+                if by_state.get("w") is not None:
+                    by_state["w"].close()
                 await asyncio.sleep(0.05)
                 return None
             # both halves: real client transport against the real server loop
@@ -333,7 +396,16 @@ class C19(Check):
                 violation(res, "C19/sequence", "C19/sequence:client-write", "peer received a different byte stream than hex(message)+newline per write()")
             timeouts_midline = sum(1 for g in got if g == "timeout")
         else:
-            seen = holder["seen"]
+            seen_all = holder["seen"]
+            seen = [s_ for s_ in seen_all if not s_.startswith(MARK)]
+            by = plan.get("bystander") if mode == "server" else None
+            if by is not None:
+                want_by = [MARK + bytes([i + 1]) for i in range(by["n"])]
+                if [s_ for s_ in seen_all if s_.startswith(MARK)] != want_by:
+                    violation(res, "C19/sequence", "C19/sequence:server-requests:second-connection", f"the server loop saw {[s_.hex() for s_ in seen_all if s_.startswith(MARK)]} from the second connection, sent {[w.hex() for w in want_by]}")
+                got_by = bytes(holder["by_rx"])
+                if got_by != b"".join(transform(w).hex().encode() + b"\n" for w in want_by):  # type: ignore[union-attr]
+                    violation(res, "C19/sequence", "C19/sequence:server-replies:second-connection", f"the second connection received {got_by[:80]!r}, expected one reply line per request of its own ({by['n']})")
             if seen != msgs:
                 k = next((i for i, (a, b) in enumerate(zip(seen, msgs)) if a != b), min(len(seen), len(msgs)))
                 violation(res, "C19/sequence", f"C19/sequence:server-requests:{'missing' if len(seen) < len(msgs) and seen == msgs[:len(seen)] else 'wrong'}",
@@ -362,6 +434,10 @@ class C19(Check):
         res["faults"] = {}
         if n_split:
             bump(res["faults"], "explicit_splits", n_split)
+        if plan.get("bystander") and mode == "server":
+            bump(res["faults"], "second_connection_at_the_same_time")
+        if holder.get("loop") is not None and holder["loop"].stalls:
+            bump(res["faults"], "loop_stalls", holder["loop"].stalls)
         for k, v in holder["net"].counters.items():
             if k in ("segmented_writes", "coalesced_writes"):
                 bump(res["faults"], k, v)
